@@ -1391,9 +1391,13 @@ def gen_pool(rng, tier):
                 paused = True
             elif r < 0.6:
                 prog.append("pause")
+                if rng.random() < 0.15:
+                    prog.append("pause")       # pausing a paused pool is a no-op
                 paused = True
             elif r < 0.75:
                 prog.append("resume")
+                if rng.random() < 0.15:
+                    prog.append("resume")      # resuming a running pool is a no-op
                 paused = False
             elif r < 0.9:
                 first = rng.choice([0, 2])
@@ -1407,6 +1411,8 @@ def gen_pool(rng, tier):
                 paused = False
         if rng.random() < 0.3:
             prog.append("stop")
+            if rng.random() < 0.3:
+                prog.append("stop")            # stopping twice (the destructor stops once more anyway)
         r = rng.random()
         if r < 0.2:
             sched = []
